@@ -14,7 +14,8 @@ Record ob3 := mkOb3 { oj : ob; oy : ob; ot : ob }.
 Record mid3 := mkMid3 { mj : option jv; my : option jv; mt : option jv }.
 
 (* conf.Load by file extension, conf.MustLoad (where Load succeeded), conf.FillDefault *)
-Record extra := mkExtra { x_byext : list (string * ob); x_must : list (string * ob); x_fill : ob }.
+Record extra := mkExtra { x_byext : list (string * ob); x_must : list (string * ob); x_fill : ob;
+                          x_envref : option ob3 (* LoadFrom*Bytes of the expanded texts *) }.
 
 Inductive case :=
 | CaseLoad (T : fields) (d : doc)
@@ -166,7 +167,9 @@ Definition prop_ok (c : case) : bool :=
                               end)) (x_byext x)
            && forallb (fun er => match lookup (fst er) (x_byext x) with Some r => ob_eqb r (snd er) | None => false end)
                       (x_must x)
-           && negb (ob_panics (x_fill x)))
+           && negb (ob_panics (x_fill x))
+           (* Load(.., UseEnv()) = expanding the file's text, then loading it *)
+           && match envon, x_envref x with Some l, Some r => ob3_eqb l r | _, _ => true end)
     | CaseStd T d mp st =>
       match mp, st with
       | OOk v, OOk w => gval_eqb v w
